@@ -69,6 +69,7 @@ class Opts:
         self.leaf_everywhere = False
         self.min_modules = 1
         self.adversarial_leaf_names = False
+        self.history = False  # C04: an interleaved history of connect / replace / disconnect operations per module
         self.avoid_known = True  # do not construct the triggers of open known findings (counted as redirects)
         for k, v in kw.items():
             if not hasattr(self, k):
@@ -373,6 +374,8 @@ class ModGen:
                     e = self.conn_for(inst, p, key, info, allow_ref=False)
                     inst["conns"].append([p[1], e])
         m = {"name": "M%d" % self.midx, "sigs": self.sigs, "bundles": self.buns, "insts": self.insts}
+        if o.history:
+            m["history"] = self.make_history()
         if o.styles:
             m["style"] = d.weighted([("proc", 50), ("class", 30), ("gen", 20)])
             m["connstyle"] = d.choice(["call", "setattr", "connect", "mixed"])
@@ -382,6 +385,63 @@ class ModGen:
                 self.feats.add("style_exec_bare_name")
             self.feats.add("style_" + m["style"])
         return m
+
+    def make_history(self):
+        """Operation history per module: every port gets 0-3 earlier (decoy) connections of any kind, possibly
+        disconnects and replace() calls, and finally its real connection; the per-port sequences are interleaved."""
+        from .model import target_iface
+        d = self.d
+        saved = self.referenced
+        self.referenced = set()  # references made by decoys are not live in the final mapping
+        per_port = []
+        for inst in self.insts:
+            final = {}
+            for pn, e in inst["conns"]:
+                final[pn] = e
+            for p in target_iface(self.spec, inst["of"]):
+                key = (inst["name"], p[1])
+                info = self.portinfo[key]
+                ops = []
+                connected = None
+                for _ in range(d.weighted([(0, 30), (1, 40), (2, 20), (3, 10)])):
+                    if connected is not None and d.bool(20):
+                        ops.append([inst["name"], p[1], None, "disconnect"])
+                        self.feats.add("op_disconnect")
+                        connected = None
+                        continue
+                    fake = dict(info, plan=("nc" if d.bool(15) else "explicit"))
+                    e = self.conn_for(inst, p, key, fake, allow_ref=(inst["kind"] == "inst"))
+                    op = "replace" if connected is not None and d.bool(30) else d.choice(["call", "setattr", "connect"])
+                    if connected is not None:
+                        self.feats.add("T:%s->%s" % (connected, _ekind(e)))
+                        if connected in ("portref", "bundle", "anon", "noconn", "bundleref"):
+                            self.feats.add("replaced_ref_like")
+                    ops.append([inst["name"], p[1], e, op])
+                    self.feats.add("op_" + op)
+                    connected = _ekind(e)
+                if p[1] in final:
+                    op = "replace" if connected is not None and d.bool(30) else d.choice(["call", "setattr", "connect"])
+                    if connected is not None:
+                        self.feats.add("T:%s->%s" % (connected, _ekind(final[p[1]])))
+                        if connected in ("portref", "bundle", "anon", "noconn", "bundleref"):
+                            self.feats.add("replaced_ref_like")
+                    ops.append([inst["name"], p[1], final[p[1]], op])
+                elif connected is not None:
+                    ops.append([inst["name"], p[1], None, "disconnect"])
+                    self.feats.add("op_disconnect_final")
+                if ops:
+                    per_port.append(ops)
+        hist = []
+        pos = [0] * len(per_port)
+        live = list(range(len(per_port)))
+        while live:
+            i = d.choice(live)
+            hist.append(per_port[i][pos[i]])
+            pos[i] += 1
+            if pos[i] == len(per_port[i]):
+                live.remove(i)
+        self.referenced = saved
+        return hist
 
     def conn_for(self, inst, p, key, info, allow_ref=True):
         d, o = self.d, self.o
@@ -433,6 +493,11 @@ class ModGen:
         self.spec["bundles"].append({"name": "Diff", "builtin": "Diff", "roles": False,
                                      "sigs": [["p", 1, "plain"], ["n", 1, "plain"]], "subs": []})
         return len(self.spec["bundles"]) - 1
+
+
+def _ekind(e):
+    return {"sig": "signal", "slice": "slice", "cat": "concat", "pref": "portref", "bref": "bundleref", "bun": "bundle",
+            "anon": "anon", "nc": "noconn"}.get(e[0], e[0])
 
 
 def _has_ref(e):
